@@ -164,7 +164,9 @@ class InventoryBuffer(Entity):
             now_s = self.now.to_seconds()
             results.append(
                 Event(
-                    time=Instant.from_seconds(now_s + self.lead_time),
+                    # Instant + seconds is integer-nanosecond arithmetic; the round trip through
+                    # float seconds could land 1 ns before ``now`` (lead_time 0 -> event dropped).
+                    time=self.now + self.lead_time,
                     event_type=_REPLENISH,
                     target=self,
                     context={"quantity": self.order_quantity},
